@@ -53,6 +53,19 @@ def diagram_case(args):
         if rnd.random() < 0.3:
             for op in recipe["ops"]:
                 if "comp" in op and op["comp"]["kind"] == "PLoad": op["comp"]["args"]["pwr"] = rnd.choice([0.5, 2.0])
+    if rnd.random() < 0.12:
+        # nano-power system: every loss is positive but far below 1e-8 W (the heat scale is relative to the largest loss, whatever its size)
+        for op in recipe["ops"]:
+            if "comp" not in op: continue
+            a_ = op["comp"]["args"]
+            for k_, f_ in (("pwr", 1e-9), ("pwrs", 1e-9), ("ii", 1e-9), ("iis", 1e-9), ("iq", 1e-9), ("ig", 1e-9)):
+                if k_ in a_ and isinstance(a_[k_], (int, float)) and not isinstance(a_[k_], bool): a_[k_] = a_[k_] * f_
+            if op["comp"]["kind"] == "RLoad": a_["rs"] = a_["rs"] * 1e9
+            if isinstance(a_.get("ig"), dict): a_["ig"] = 0.0
+            if isinstance(a_.get("iq"), dict): a_["iq"] = 0.0
+        for op in recipe["ops"]:
+            if op["op"] == "set_comp_phases" and isinstance(op["conf"], dict): op["conf"] = {k_: (v_ * 1e-9 if v_ < 1e3 else v_ * 1e9) for k_, v_ in op["conf"].items()}
+        if idx % 3 == 1: shadow = Model.of(recipe)
     if rnd.random() < 0.15:
         # a group name made of blanks only is still a non-empty group
         gs = sorted({op.get("group", "") for op in recipe["ops"]} - {""})
